@@ -124,7 +124,11 @@ func (ex *Exec) callStatic(fr *Frame, st *State, fn *ssa.Function, args []Val, b
 	}
 	if fc := ex.ld.contractFor(fn); fc != nil && fn != ex.top && !fc.Inline {
 		if fc.Trusted {
-			ex.trustedUsed["assumed contract (specs/): "+fn.String()] = true
+			if r := fc.Opts["trusted_reason"]; r != "" {
+				ex.trustedUsed["assumed contract: "+fnKey(fn)+" ("+r+")"] = true
+			} else {
+				ex.trustedUsed["assumed contract (specs/): "+fn.String()] = true
+			}
 		}
 		return ex.callContract(fr, st, fn, fc, args, pos)
 	}
